@@ -7,7 +7,7 @@ HERE = os.path.dirname(os.path.dirname(os.path.abspath(__file__)))
 
 READY = {
  "C07": ("Coq theorems over an executable model of the bencode encoder and the buffer/stream/skip decoders — round trip (all three readers), canonical and injective encoding, totality and in-range reads on arbitrary input, faithful (never wrapped) decoding, decoder agreement — for ALL trees and byte strings; tied to /repo by differential execution of the extracted model and the real codec on generated + exhaustive small inputs under ASan/UBSan, plus an independent python reference oracle on the implementation's outputs",
-         "modelled not verified: libstdc++ operator>> number parsing, std::map ordering; static-map reader: totality and memory safety, segment-level faithfulness and raw-reader exactness proved for all key tables with table_ok (the four real tables checked); static-map round trip proved for instances only (partial), covered by correspondence"),
+         "modelled not verified: libstdc++ operator>> number parsing, std::map ordering; static-map reader: totality and memory safety, segment-level faithfulness and raw-reader exactness proved for all key tables with table_ok (the four real tables checked); static-map round trip proved for all tables with table_rt_ok (nested dictionaries of any depth, all leaf kinds; the four real tables checked) with list rows empty, filled list rows by instances only (partial); writer total for all tables with table_ww_ok"),
 }
 PENDING_REASON = "check not yet registered in this round (being built: see DESIGN.md section 6); nothing is claimed for it"
 
